@@ -43,6 +43,12 @@ type replOS struct {
 	// command line mode (no REPL): args of the run, stdout not a terminal (raw output), files
 	cliArgs []string
 	files   fstest.MapFS
+
+	// blocked reads (blocked.go): a file system with the file under test, a stdin that is not a
+	// terminal, and a channel closed when the REPL asks for the line after the line under test
+	fsys      fs.FS
+	stdin     interp.Input
+	afterTest chan struct{}
 }
 
 type replOut struct{ o *replOS }
@@ -85,7 +91,12 @@ func (replIn) IsTerminal() bool { return true }
 func (o *replOS) Platform() interp.Platform {
 	return interp.Platform{OS: "testos", Arch: "testarch", GoVersion: "testgo"}
 }
-func (o *replOS) Stdin() interp.Input          { return replIn{interp.FileReader{R: &bytes.Buffer{}}} }
+func (o *replOS) Stdin() interp.Input {
+	if o.stdin != nil {
+		return o.stdin
+	}
+	return replIn{interp.FileReader{R: &bytes.Buffer{}}}
+}
 func (o *replOS) Stdout() interp.Output        { return replOut{o} }
 func (o *replOS) Stderr() interp.Output        { return replErr{&o.stderr} }
 func (o *replOS) InterruptChan() chan struct{} { return o.interruptCh }
@@ -100,6 +111,9 @@ func (o *replOS) Environ() []string {
 }
 func (o *replOS) ConfigDir() (string, error) { return "/config", nil }
 func (o *replOS) FS() fs.FS {
+	if o.fsys != nil {
+		return o.fsys
+	}
 	if o.files != nil {
 		return o.files
 	}
@@ -110,6 +124,10 @@ func (o *replOS) Readline(opts interp.ReadlineOpts) (string, error) {
 	o.mu.Lock()
 	defer o.mu.Unlock()
 	o.armed = false
+	if o.afterTest != nil && o.lineIdx > o.testLine {
+		close(o.afterTest)
+		o.afterTest = nil
+	}
 	if o.lineIdx >= len(o.lines) {
 		return "", io.EOF
 	}
